@@ -99,7 +99,8 @@ static uint64_t g_draw_hash = 0;
 double __wrap_randDouble(double low, double high) { vx_tick(g_tick); double a[2] = {low, high}; g_draw_hash = vx_hash_doubles(a, 2, g_draw_hash); return __real_randDouble(low, high); }
 
 /* ------------------------------------------------------------------ ThreadSanitizer report hook */
-static volatile int g_race = 0; static char g_race_desc[48]; static void *volatile g_race_addr;
+#define MAXRA 64
+static volatile int g_race = 0; static char g_race_desc[48]; static void *g_race_addrs[MAXRA];
 #if H_TSAN
 int __tsan_get_report_data(void *report, const char **description, int *count, int *stack_count, int *mop_count, int *loc_count,
                            int *mutex_count, int *thread_count, int *unique_tid_count, void **sleep_trace, unsigned long trace_size);
@@ -115,8 +116,8 @@ __attribute__((no_sanitize("thread"))) void __tsan_on_report(void *rep) {
   if (!g_race) {
     int i = 0; for (; d[i] && i < (int)sizeof g_race_desc - 1; i++) g_race_desc[i] = d[i] == ' ' ? '-' : d[i];
     g_race_desc[i] = 0;
-    if (mc > 0) { int tid, sz, wr, at; void *ad = 0, *tr[1]; __tsan_get_report_mop(rep, 0, &tid, &ad, &sz, &wr, &at, tr, 1); g_race_addr = ad; }
   }
+  if (g_race < MAXRA) { int tid, sz, wr, at; void *ad = 0, *tr[1]; if (mc > 0) __tsan_get_report_mop(rep, 0, &tid, &ad, &sz, &wr, &at, tr, 1); g_race_addrs[g_race] = ad; }
   g_race++;
 }
 /* The driver exports TSAN_OPTIONS=halt_on_error=1:exitcode=66 (a report kills the worker and the engine files it as
@@ -137,12 +138,42 @@ static void tsan_reexec(char **argv) {
  * other oracle, and behaviour after an out-of-range slice is not reproducible without ASan's redzones (heap reuse differs
  * between a long-lived worker and a fresh replay process), which would turn a genuine finding into a replay divergence. */
 #define JUDGE(ok, ...) vx_check(H_TSAN ? 1 : (ok), __VA_ARGS__)
-static void race_reset(void) { g_race = 0; g_race_addr = 0; g_race_desc[0] = 0; }
-static void race_check(const char *fn, const char *cl) {
-  if (!H_TSAN) return;
-  char key[160]; snprintf(key, sizeof key, "race|tsan:%s|%s|%s", g_race ? g_race_desc : "none", fn, cl);
-  vx_check(g_race == 0, key, "ThreadSanitizer reported %d %s report(s) while %s ran; first racing access at %p (see the worker's stderr / replay for the stacks)", g_race, g_race_desc, fn, g_race_addr);
+static void race_reset(void) { g_race = 0; g_race_desc[0] = 0; }
+/* A race report is handed to the oracle if its address lies in the kernel's OUTPUT object (the thing the slices partition).
+ * Reports elsewhere are the by-product of an out-of-range slice or index (a write past the end of the output lands in a
+ * neighbouring heap block, e.g. the pthread_t array the caller is filling): those depend on timing and heap layout, do not
+ * replay, and are ASan's to report.  For the selection algorithms the sliced buffers are internal, so every report counts. */
+static int in_vec(const void *a, const void *base, size_t bytes) { return (const char *)a >= (const char *)base && (const char *)a < (const char *)base + bytes; }
+static void race_judge(const char *fn, const char *cl, int inside, int outside, void *first) {
+  char key[160]; snprintf(key, sizeof key, "race|tsan:%s|%s|%s", inside ? g_race_desc : "none", fn, cl);
+  vx_check(inside == 0, key, "ThreadSanitizer reported %d data race(s) on the output of %s (first at %p; %d more report(s) outside the output); two workers were handed the same element -- stacks: worker stderr / replay", inside, fn, first, outside);
   race_reset();
+}
+static void race_check_dv(const char *fn, const char *cl, const dvector *a, const dvector *b) {
+  if (!H_TSAN) return;
+  int in = 0, n = g_race < MAXRA ? g_race : MAXRA; void *first = 0;
+  for (int i = 0; i < n; i++) if ((a && in_vec(g_race_addrs[i], a->data, a->size * sizeof(double))) || (b && in_vec(g_race_addrs[i], b->data, b->size * sizeof(double)))) { if (!in++) first = g_race_addrs[i]; }
+  race_judge(fn, cl, in, g_race - in, first);
+}
+static void race_check_uv(const char *fn, const char *cl, const uivector *a, const uivector *b) {
+  if (!H_TSAN) return;
+  int in = 0, n = g_race < MAXRA ? g_race : MAXRA; void *first = 0;
+  for (int i = 0; i < n; i++) if ((a && in_vec(g_race_addrs[i], a->data, a->size * sizeof(size_t))) || (b && in_vec(g_race_addrs[i], b->data, b->size * sizeof(size_t)))) { if (!in++) first = g_race_addrs[i]; }
+  race_judge(fn, cl, in, g_race - in, first);
+}
+static void race_check_mx(const char *fn, const char *cl, const matrix *a, const matrix *b) {
+  if (!H_TSAN) return;
+  int in = 0, n = g_race < MAXRA ? g_race : MAXRA; void *first = 0;
+  for (int i = 0; i < n; i++) {
+    int hit = 0;
+    for (int w = 0; w < 2 && !hit; w++) { const matrix *m = w ? b : a; if (!m) continue; for (size_t r = 0; r < m->row && !hit; r++) hit = in_vec(g_race_addrs[i], m->data[r], m->col * sizeof(double)); }
+    if (hit && !in++) first = g_race_addrs[i];
+  }
+  race_judge(fn, cl, in, g_race - in, first);
+}
+static void race_check(const char *fn, const char *cl) {   /* internal buffers: every data race counts */
+  if (!H_TSAN) return;
+  race_judge(fn, cl, g_race, 0, g_race ? g_race_addrs[0] : 0);
 }
 
 static void harness_error(const char *what) { fprintf(stderr, "VX-HARNESS-ERROR: h_C13: %s\n", what); _exit(2); }
@@ -209,7 +240,7 @@ static void run_mtmv(int which, int n, int th, int c, int fam, dvector **out_fre
   dvector *p = hv_new(n, NULL), *p2 = hv_new(n, NULL), *ps = hv_new(n, NULL), *pp = hv_new(n, NULL);
   g_nproc = (size_t)th; long calls0 = g_nproc_calls; g_created = 0; race_reset();
   mt(m, v, p); vx_transition(1);
-  race_check(fn, cl);
+  race_check_dv(fn, cl, p, NULL);
   if (g_nproc_calls == calls0) harness_error("GetNProcessor seam not reached by the MT_ product");
   if (th > 1 && n >= th && g_created < 2) harness_error("the MT_ product ignored the processor count handed out by the GetNProcessor seam");
   int skipped = 0, twice = 0, bad = 0; double worst = 0, wtol = 0;
@@ -224,7 +255,7 @@ static void run_mtmv(int which, int n, int th, int c, int fam, dvector **out_fre
   KEY(key, "value", fn, cl); JUDGE(bad == 0, key, "%s(%d x %d) with %d threads: %d element(s) differ from the definition", fn, n, c, th, bad);
   vx_log("%s n=%d c=%d th=%d: worst err/tol %.3g (tol %.3g)\n", fn, n, c, th, worst, wtol);
   /* sequential variant, and a repeat */
-  st(m, v, ps); mt(m, v, p2); vx_transition(2); race_check(fn, cl);
+  st(m, v, ps); mt(m, v, p2); vx_transition(2); race_check_dv(fn, cl, p2, NULL);
   double dst = 0; for (int i = 0; i < n; i++) dst = fmax(dst, fabs(p->data[i] - ps->data[i]) / (64.0 * DEPS * (c + 2) * (double)bnd[i] + 1e-300));
   KEY(key, "mt-vs-st", fn, cl); JUDGE(dst <= 2.0 && hv_allfinite(p), key, "%s vs sequential (%d x %d, %d threads): %g x tolerance", fn, n, c, th, dst);
   KEY(key, "repeat", fn, cl); JUDGE(vec_bitequal(p, p2), key, "%s (%d x %d, %d threads): two runs are not bit-identical", fn, n, c, th);
@@ -232,7 +263,7 @@ static void run_mtmv(int which, int n, int th, int c, int fam, dvector **out_fre
    * may come back as definition (assigned) or sentinel+definition (accumulated); an element that still holds
    * exactly the sentinel was visited by no worker, sentinel+2*definition by two. */
   for (int i = 0; i < n; i++) pp->data[i] = SENT;
-  mt(m, v, pp); vx_transition(1); race_check(fn, cl);
+  mt(m, v, pp); vx_transition(1); race_check_dv(fn, cl, pp, NULL);
   int untouched = 0, odd = 0;
   for (int i = 0; i < n; i++) {
     double tol = 64.0 * DEPS * (c + 2) * (double)bnd[i] + 8 * DEPS * SENT;
@@ -257,7 +288,7 @@ static void run_dist(int metric, int n, int th, int c, int fam, int m2kind, matr
   matrix *d, *d2, *ds; initMatrix(&d); initMatrix(&d2); initMatrix(&ds);
   g_created = 0; race_reset();
   CalculateDistance(m1, m2, d, (size_t)th, (enum cmethod)metric); vx_transition(1);
-  race_check(fn, cl);
+  race_check_mx(fn, cl, d, NULL);
   if (th > 1 && n >= th && g_created < 2) harness_error("kernel ignored its nthreads argument: the thread-count dimension would be vacuous");
   KEY(key, "shape", fn, cl);
   int shape_ok = (int)d->row == r2 && (int)d->col == n;
@@ -277,7 +308,7 @@ static void run_dist(int metric, int n, int th, int c, int fam, int m2kind, matr
     KEY(key, "coverage", fn, cl); JUDGE(skipped == 0, key, "%s with %d threads on %d rows: the distances of %d row(s) were never computed (column left 0)", fn, th, n, skipped);
     KEY(key, "value", fn, cl); JUDGE(bad == 0, key, "%s with %d threads on %d rows x %d: %d row(s) differ from the definition", fn, th, n, c, bad);
     vx_log("%s n=%d c=%d th=%d: worst err/tol %.3g\n", fn, n, c, th, worst);
-    ST_OF[metric](m1, m2, ds); CalculateDistance(m1, m2, d2, (size_t)th, (enum cmethod)metric); vx_transition(2); race_check(fn, cl);
+    ST_OF[metric](m1, m2, ds); CalculateDistance(m1, m2, d2, (size_t)th, (enum cmethod)metric); vx_transition(2); race_check_mx(fn, cl, d2, NULL);
     double worst_st = 0; int st_shape = ds->row == d->row && ds->col == d->col;
     for (int i = 0; st_shape && i < n; i++) for (int k = 0; k < r2; k++) { double e = fabs(d->data[k][i] - ds->data[k][i]) / dist_tol(metric, c, ds->data[k][i]); if (!(e <= worst_st)) worst_st = e; }
     KEY(key, "mt-vs-st", fn, cl); JUDGE(st_shape && worst_st <= 2.0, key, "%s with %d threads vs the _ST variant (%d rows): %g x tolerance", fn, th, n, worst_st);
@@ -315,7 +346,7 @@ static void run_cond(int metric, int n, int th, int c, int fam, dvector **out_fr
   long N = (long)n * (n - 1) / 2; if (n == 0) N = 0;
   g_created = 0; race_reset();
   CD_OF[metric](m, cd, (size_t)th); vx_transition(1);
-  race_check(fn, cl);
+  race_check_dv(fn, cl, cd, NULL);
   if (th > 1 && n >= th && g_created < 2) harness_error("kernel ignored its nthreads argument: the thread-count dimension would be vacuous");
   KEY(key, "shape", fn, cl); int shape_ok = (long)cd->size == N;
   JUDGE(shape_ok, key, "%s on %d rows: %zu entries, expected %ld", fn, n, cd->size, N);
@@ -339,7 +370,7 @@ static void run_cond(int metric, int n, int th, int c, int fam, dvector **out_fr
     KEY(key, "value", fn, cl); JUDGE(bad == 0, key, "%s with %d threads on %d rows x %d: pairs of %d row(s) differ from the definition", fn, th, n, c, bad);
     KEY(key, "condensed-vs-square", fn, cl); JUDGE(mism == 0 || skipped || bad, key, "%s: %d entries differ from the square form at the documented index", fn, mism);
     vx_log("%s n=%d c=%d th=%d: worst err/tol %.3g\n", fn, n, c, th, worst);
-    CD_OF[metric](m, cd2, (size_t)th); CD_OF[metric](m, cd1, 1); vx_transition(2); race_check(fn, cl);
+    CD_OF[metric](m, cd2, (size_t)th); CD_OF[metric](m, cd1, 1); vx_transition(2); race_check_dv(fn, cl, cd2, cd1);
     KEY(key, "repeat", fn, cl); JUDGE(vec_bitequal(cd, cd2), key, "%s with %d threads (%d rows): two runs are not bit-identical", fn, th, n);
     double w1 = 0; for (size_t q = 0; q < cd->size && cd1->size == cd->size; q++) { double e = fabs(cd->data[q] - cd1->data[q]) / dist_tol(metric, c, cd1->data[q]); if (!(e <= w1)) w1 = e; }
     KEY(key, "mt-vs-st", fn, cl); JUDGE(cd1->size == cd->size && w1 <= 2.0, key, "%s with %d threads vs 1 thread (%d rows): %g x tolerance", fn, th, n, w1);
@@ -356,7 +387,7 @@ static void run_labels(int n, int th, int c, int fam, uivector **out_free) {
   for (int i = 0; i < n; i++) lab->data[i] = lab2->data[i] = (size_t)-1;   /* sentinel: the kernel assigns */
   g_created = 0; race_reset();
   getLabels_(m, cen, lab, th); vx_transition(1);
-  race_check(fn, cl);
+  race_check_uv(fn, cl, lab, NULL);
   if (th > 1 && n >= th && g_created < 2) harness_error("kernel ignored its nthreads argument: the thread-count dimension would be vacuous");
   int untouched = 0, notnear = 0;
   for (int i = 0; i < n; i++) {
@@ -367,7 +398,7 @@ static void run_labels(int n, int th, int c, int fam, uivector **out_free) {
   }
   KEY(key, "coverage", fn, cl); JUDGE(untouched == 0, key, "%s with %d threads on %d rows: %d row(s) were never labelled (sentinel left)", fn, th, n, untouched);
   KEY(key, "value", fn, cl); JUDGE(notnear == 0, key, "%s with %d threads on %d rows: %d row(s) do not carry the label of a nearest centroid", fn, th, n, notnear);
-  getLabels(m, cen, labst); getLabels_(m, cen, lab2, th); vx_transition(2); race_check(fn, cl);
+  getLabels(m, cen, labst); getLabels_(m, cen, lab2, th); vx_transition(2); race_check_uv(fn, cl, lab2, NULL);
   KEY(key, "mt-vs-st", fn, cl); JUDGE(uiv_equal(lab, labst) || untouched, key, "%s with %d threads differs from getLabels (%d rows)", fn, th, n);
   KEY(key, "repeat", fn, cl); JUDGE(uiv_equal(lab, lab2), key, "%s with %d threads (%d rows): two runs differ", fn, th, n);
   DelMatrix(&m); DelMatrix(&cen); DelUIVector(&lab2); DelUIVector(&labst);
